@@ -24,7 +24,7 @@ def run(ctx):
     ctx.rule('C07.R1', 'Archive::load: every Some return guarded by read Ok, parse Ok, format_version==FORMAT_VERSION, root_pair_hash==expected_pair', floor=1)
     ctx.rule('C07.R2', 'archive-derived paths are content-read only by load (unmodified path); load has one caller with this run\'s pair', floor=2)
     ctx.rule('C07.R3', 'trust_base == loaded.is_some() reaches reconcile unchanged; base derives only from the loaded archive or empty', floor=2)
-    ctx.rule('C07.R4', 'reconcile: base.get(p) guarded by trust_base true edge; otherwise constant None; that value goes to reconcile_path', floor=2)
+    ctx.rule('C07.R4', 'reconcile: the base value handed to reconcile_path is None or exists only behind trust_base == true; no other use of base', floor=1)
     ctx.rule('C07.R5', 'reconcile_path never yields DeleteA/DeleteB when base is absent (decision DAG)', floor=1)
     ctx.rule('C07.R6', 'remove_file in the bisync call graph only on DeleteA/DeleteB arms of apply', floor=2)
     ctx.rule('C07.R7', 'the pair key hashes the symlink-resolved (canonicalized) roots: it identifies directories, not spellings', floor=2)
@@ -192,46 +192,98 @@ def r3(ctx, F, ip):
 
 
 def r4(ctx, F):
-    b = F.body('reconcile::reconcile')
-    if b is None:
+    top = F.body('reconcile::reconcile')
+    if top is None:
         ctx.missing('C07.R4', 'reconcile::reconcile')
-    fl = flow_of(b)
-    cfg = fl.cfg
-    trust = param_index(b, 'trust_base') or 4
-    base = param_index(b, 'base') or 3
-    tr_true = set()
-    for sb, st in switch_blocks_on(fl, lambda os_: bool(os_) and all(o.kind == 'param' and o.key == trust for o in os_)):
-        tr, fa = bool_edges(sb, st)
-        tr_true |= tr
-    gets = [(gb, gt) for gb, gt in fl.calls(lambda c: c.startswith('std::collections::BTreeMap') and not c.endswith('::keys') and not c.endswith('::len'))
-            if any(o.kind == 'param' and o.key == base for o in fl.origins(gt['args'][0]))]
-    for gb, gt in gets:
-        ctx.check(bool(tr_true) and cfg.edges_guard(tr_true, gb), 'C07.R4', 'reconcile:%s(base)' % callee(gt).split('::')[-1],
-                  'guarded by trust_base true edge', 'reconcile consults `base` outside the trust_base branch', term_loc(b, gb))
-    # any other use of base (iteration etc.)
-    for bi in cfg.reachable():
-        t = b.blocks[bi]['term']
-        if t['k'] == 'call' and (bi, t) not in gets:
-            for a in t['args']:
-                if a['k'] != 'const' and any(o.kind == 'param' and o.key == base for o in fl.origins(a)):
-                    if not (tr_true and cfg.edges_guard(tr_true, bi)):
+    trust = param_index(top, 'trust_base') or 4
+    base = param_index(top, 'base') or 3
+    n_rp = 0
+    # the decision may sit in the fn body or in a closure of an iterator chain (filter_map): every nested body is judged,
+    # `trust_base` / `base` being the fn's parameters or their captures
+    for b in F.nested('reconcile::reconcile'):
+        fl = flow_of(b)
+        cfg = fl.cfg
+
+        def is_slot(os_, slot):
+            os_ = [o for o in os_ if o.kind != 'comb']
+            return bool(os_) and all(fn_param_slot(F, b, o) == slot and o.kind in ('param', 'upvar') for o in os_)
+
+        def mentions(os_, slot):
+            return any(o.kind in ('param', 'upvar') and fn_param_slot(F, b, o) == slot for o in os_)
+        tr_true = set()
+        for sb, st in switch_blocks_on(fl, lambda os_: is_slot(os_, trust)):
+            tr, fa = bool_edges(sb, st)
+            tr_true |= tr
+        gets = [(gb, gt) for gb, gt in fl.calls(lambda c: c.startswith('std::collections::BTreeMap') and not c.endswith('::keys') and not c.endswith('::len'))
+                if mentions(fl.origins(gt['args'][0]), base)]
+        # (looking a path up in `base` is harmless by itself; what matters is which value reaches reconcile_path - judged below)
+        # any other use of base (iteration etc.); handing it to a closure of this function is not a use - that closure is judged itself
+        for bi in cfg.reachable():
+            t = b.blocks[bi]['term']
+            if t['k'] == 'call' and (bi, t) not in gets:
+                for a in t['args']:
+                    if a['k'] == 'const':
+                        continue
+                    os_ = fl.origins(a)
+                    if any(o.kind == 'agg' and F.body(o.key) is not None for o in os_):
+                        continue
+                    if mentions(os_, base) and not (tr_true and cfg.edges_guard(tr_true, bi)):
                         ctx.bad('C07.R4', 'reconcile:%s(base)' % (callee(t) or 'call'), 'reconcile uses `base` outside the trust_base branch', term_loc(b, bi))
-    rp = fl.calls_to('reconcile::reconcile_path')
-    if not rp:
+        for cb, ct in fl.calls_to('reconcile::reconcile_path'):
+            n_rp += 1
+            # definitions of the third operand: None, or a value that exists only behind trust_base == true
+            seen_l = set()
+            has_none = [False]
+            why = []
+
+            def z_ok(op_, depth=0):
+                if op_['k'] == 'const' or depth > 8:
+                    return False
+                l = op_['p']['l']
+                if (l, depth > 0) in seen_l:
+                    return True
+                seen_l.add((l, depth > 0))
+                ds = fl.defs.get(l, [])
+                if not ds:
+                    # a parameter / capture handed in as is
+                    why.append('the base operand is taken from outside without a trust test')
+                    return False
+                good = True
+                for (dbb, idx, kind, data, dproj) in ds:
+                    guarded = bool(tr_true) and cfg.edges_guard(tr_true, dbb)
+                    if kind == 'assign':
+                        rv = data
+                        if rv['k'] == 'agg' and rv.get('vname') == 'None':
+                            has_none[0] = True
+                        elif rv['k'] == 'agg' and rv.get('vname') == 'Some':
+                            if not guarded:
+                                good = False
+                                why.append('a Some(..) base value is built outside the trust_base == true branch')
+                        elif rv['k'] in ('use', 'ref', 'cast') and (rv.get('ops') or [{}])[0].get('k') != 'const':
+                            src = rv['ops'][0] if 'ops' in rv else {'k': 'copy', 'p': rv['p']}
+                            good = z_ok(src, depth + 1) and good
+                        else:
+                            good = False
+                            why.append('unrecognised definition of the base operand')
+                    else:
+                        c_ = callee(data) or ''
+                        if guarded:
+                            continue
+                        if c_.split('::')[-1] in ('copied', 'cloned', 'as_ref', 'map', 'filter', 'and_then', 'then', 'then_some'):
+                            # Option combinators: the value exists only if their receiver / condition does
+                            if c_.split('::')[-1] in ('then', 'then_some') and is_slot(fl.origins(data['args'][0]), trust):
+                                continue        # trust_base.then(|| ..): Some only when trust_base
+                            good = z_ok(data['args'][0], depth + 1) and good
+                        else:
+                            good = False
+                            why.append('%s outside the trust_base == true branch' % c_.split('::')[-1])
+                return good
+            ok = z_ok(ct['args'][2])
+            ctx.check(ok and has_none[0], 'C07.R4', 'reconcile:z->reconcile_path', 'z is None, or a base value that exists only behind trust_base == true',
+                      'the base value handed to reconcile_path can be a real base entry although trust_base is false (%s)' % ('; '.join(sorted(set(why))) or 'no None alternative'),
+                      term_loc(b, cb))
+    if not n_rp:
         ctx.missing('C07.R4', 'reconcile -> reconcile_path')
-    for cb, ct in rp:
-        oz = fl.origins(ct['args'][2])
-        ok = bool(oz)
-        for o in oz:
-            if o.kind == 'agg' and o.key == 'std::option::Option::None':
-                continue
-            if o.kind == 'call' and o.key.startswith('std::collections::BTreeMap') and o.bb is not None and tr_true and cfg.edges_guard(tr_true, o.bb):
-                continue
-            ok = False
-        has_none = any(o.kind == 'agg' and o.key == 'std::option::Option::None' for o in oz)
-        ctx.check(ok and has_none, 'C07.R4', 'reconcile:z->reconcile_path', 'z ∈ {base.get(p) under trust_base, None}',
-                  'the base value handed to reconcile_path is not {trusted lookup, None}: %s' % sorted({'%s:%s' % (o.kind, o.key) for o in oz}),
-                  term_loc(b, cb))
 
 
 RESOLVERS = ('std::fs::canonicalize', 'std::path::Path::canonicalize', 'tokio::fs::canonicalize', 'std::fs::read_link')
